@@ -179,3 +179,102 @@ func kindC05SrcFact(x *Ctx, it Item) {
 
 // comments are not part of a fact
 func printerConfig() *printer.Config { return &printer.Config{Mode: printer.RawFormat} }
+
+// kind "c05_zguard": the condition of the index-th `if` statement (pre-order) of a function,
+// translated into a Gallina boolean function over Z.  Supported: comparisons < <= > >= == !=
+// between integer literals and operands named in args.vars (printed Go expression -> Coq
+// variable), combined with && || ! and parentheses.  Anything else is untranslatable.
+//
+//	{"kind": "c05_zguard", "file": "content/limitedstorage.go", "recv": "LimitedStorage", "func": "Push",
+//	 "name": "c05_g_limited", "args": {"index": 0, "vars": {"expected.Size": "sz", "ls.PushLimit": "limit"}, "order": ["sz", "limit"]}}
+//
+// emits   Definition c05_g_limited (sz limit : Z) : bool := (sz >? limit)%Z.
+// Proofs/VerifyFacts.v proves that the model's hand-written guards are these functions.
+
+func init() { kinds["c05_zguard"] = kindC05ZGuard }
+
+func kindC05ZGuard(x *Ctx, it Item) {
+	fd := findFunc(x.File(it.File), it.Recv, it.Func)
+	if fd == nil || fd.Body == nil {
+		fail("%s: function %s.%s not found", it.File, it.Recv, it.Func)
+	}
+	idx := 0
+	if f, ok := it.Args["index"].(float64); ok {
+		idx = int(f)
+	}
+	vars := map[string]string{}
+	if m, ok := it.Args["vars"].(map[string]any); ok {
+		for k, v := range m {
+			vars[strings.Join(strings.Fields(k), "")], _ = v.(string)
+		}
+	}
+	var order []string
+	if l, ok := it.Args["order"].([]any); ok {
+		for _, v := range l {
+			s, _ := v.(string)
+			order = append(order, s)
+		}
+	}
+	var cond ast.Expr
+	n := 0
+	ast.Inspect(fd.Body, func(nd ast.Node) bool {
+		if is, ok := nd.(*ast.IfStmt); ok {
+			if n == idx && cond == nil {
+				cond = is.Cond
+			}
+			n++
+		}
+		return true
+	})
+	if cond == nil {
+		fail("%s: %s.%s has no if statement #%d", it.File, it.Recv, it.Func, idx)
+	}
+	what := it.File + ":" + it.Recv + "." + it.Func
+	var tr func(e ast.Expr) string
+	operand := func(e ast.Expr) string {
+		if bl, ok := e.(*ast.BasicLit); ok && bl.Kind == token.INT {
+			return bl.Value
+		}
+		var sb strings.Builder
+		printerConfig().Fprint(&sb, x.Fset(), e)
+		key := strings.Join(strings.Fields(sb.String()), "")
+		if v, ok := vars[key]; ok {
+			return v
+		}
+		fail("%s: operand %q of if #%d is not a literal or a declared variable", what, key, idx)
+		return ""
+	}
+	tr = func(e ast.Expr) string {
+		switch t := e.(type) {
+		case *ast.ParenExpr:
+			return tr(t.X)
+		case *ast.UnaryExpr:
+			if t.Op == token.NOT {
+				return "negb (" + tr(t.X) + ")"
+			}
+		case *ast.BinaryExpr:
+			switch t.Op {
+			case token.LAND:
+				return "(" + tr(t.X) + " && " + tr(t.Y) + ")"
+			case token.LOR:
+				return "(" + tr(t.X) + " || " + tr(t.Y) + ")"
+			case token.LSS:
+				return "(" + operand(t.X) + " <? " + operand(t.Y) + ")%Z"
+			case token.LEQ:
+				return "(" + operand(t.X) + " <=? " + operand(t.Y) + ")%Z"
+			case token.GTR:
+				return "(" + operand(t.X) + " >? " + operand(t.Y) + ")%Z"
+			case token.GEQ:
+				return "(" + operand(t.X) + " >=? " + operand(t.Y) + ")%Z"
+			case token.EQL:
+				return "(" + operand(t.X) + " =? " + operand(t.Y) + ")%Z"
+			case token.NEQ:
+				return "negb (" + operand(t.X) + " =? " + operand(t.Y) + ")%Z"
+			}
+		}
+		fail("%s: condition of if #%d is not a comparison formula", what, idx)
+		return ""
+	}
+	body := tr(cond)
+	x.Printf("(* %s: condition of if #%d *)\nDefinition %s (%s : Z) : bool := %s.\n\n", what, idx, coqName(it), strings.Join(order, " "), body)
+}
